@@ -203,6 +203,9 @@ func c11Classify(c11Input, engResult, []mockq.Rec, []int64) string { return "" }
 
 func c11Run(r *vkit.Run) {
 	bound := 1
+	if r.Thorough() {
+		bound = 2
+	}
 	idx := 0
 	for _, sub := range subsets(len(c11Series), 4) {
 		if len(sub) == 0 {
